@@ -173,7 +173,7 @@ def monitor_mgr(script):
             abort_req.add(int(a["r"]))
         elif verb == "intr":
             intr = True
-        elif verb == "deliver" and not ign and "dh" in o:
+        elif verb in ("deliver", "deliver2") and not ign and "dh" in o:
             delivered.add(int(o["dh"]))
         sigs = _parse_sigs(o.get("sigs", "[]"))
         alive = o.get("alive") == "1"
